@@ -102,67 +102,32 @@ def run(ctx):
                 if not (is_sent or is_qlen):
                     continue
                 n5 += 1
-                conds = []
-                child = x
-                for p in u.ancestors(x):
-                    if p.get("kind") == "IfStmt":
-                        ks = A.kids(p)
-                        if _contains(ks[1], child):
-                            conds.append((ks[0], True))
-                        elif len(ks) > 2 and _contains(ks[2], child):
-                            conds.append((ks[0], False))
-                    if p.get("kind") in ("CXXMethodDecl", "FunctionDecl"):
-                        break
-                    child = p
-                exprs = sorted({member_text(m) for c, _ in conds for m in A.walk(c) if m.get("kind") == "MemberExpr" and m.get("referencedMemberDecl") in sentinel})
-                me = member_text(tgt) if is_sent else None
+                conds = _guards(u, x)
+                # a file-local helper stands for its call sites: the callers' guards and the argument values count
+                sites = []
+                if fn.get("kind") == "FunctionDecl" and fn.get("storageClass") == "static":
+                    for q2, fns2 in u.functions.items():
+                        for g in fns2:
+                            if u.body(g) is None or g is fn:
+                                continue
+                            for c in A.calls_in(u.body(g), fn.get("name")):
+                                sites.append((q2, c))
+                    if not sites:
+                        raise AnalysisBroken("R19.5: static helper %s has no call site" % q)
+                    n5 += len(sites) - 1
                 witness = None
-                # plain local variables in the conditions are free (both truth values are tried) unless they are
-                # assigned inside the loop that encloses the decrement: then the renumbering depends on the scan position
-                free_ids = sorted({y["referencedDecl"]["id"] for c, _ in conds for y in A.walk(c) if y.get("kind") == "DeclRefExpr" and
-                                   y["referencedDecl"].get("kind") == "VarDecl" and "bool" in A.qtype(y)})
-                loop = None
-                for p2 in u.ancestors(x):
-                    if p2.get("kind") in ("ForStmt", "WhileStmt", "DoStmt"):
-                        loop = p2
+                for site_q, site_call in (sites or [(None, None)]):
+                    cconds = _guards(u, site_call) if site_call is not None else []
+                    binds = {}
+                    if site_call is not None:
+                        for prm, arg in zip(u.params(fn), A.kids(site_call)[1:]):
+                            binds[prm["id"]] = arg
+                    w = _queue_witness(u, sentinel, member_text, x, tgt, is_sent, conds, cconds, binds, q)
+                    if w is not None:
+                        witness = dict(w, **({"called_from": site_q} if site_q else {}))
                         break
-                carried = []
-                if loop is not None:
-                    for y in A.walk(loop):
-                        if y.get("kind") in ("BinaryOperator", "CompoundAssignOperator") and y.get("opcode", "").endswith("=") and y.get("opcode") not in ("==", "!=", "<=", ">=") and A.ref_id(A.kids(y)[0]) in free_ids:
-                            carried.append(u.by_id[A.ref_id(A.kids(y)[0])].get("name"))
-                if carried and is_sent:
-                    witness = {"reason": "the renumbering of other slots is conditioned on `%s`, which the same loop over the slots assigns: only slots visited after that point are renumbered" % carried[0]}
-                    exprs = exprs or ["-"]
-                if witness is not None:
-                    pass
-                elif not exprs:
-                    witness = {"reason": "no enclosing condition mentions a queue position"}
-                else:
-                    for vals in itertools.product((-1, 1, 2, 3), repeat=len(exprs)):
-                        asg = dict(zip(exprs, vals))
-
-                        def hook(n, ev, asg=asg):
-                            if n.get("kind") == "MemberExpr" and n.get("referencedMemberDecl") in sentinel:
-                                return asg[member_text(n)]
-                            return NotImplemented
-                        try:
-                            sat = False
-                            for fv in itertools.product((0, 1), repeat=len(free_ids)):
-                                env = dict(zip(free_ids, fv))
-                                if all(bool(FD.Eval(env=env, node_hook=hook).ev(c)) == pol for c, pol in conds):
-                                    sat = True
-                                    break
-                        except FD.Unknown as e:
-                            raise AnalysisBroken("R19.5: condition not evaluable in %s: %s" % (q, e))
-                        if sat and any(v == -1 for k, v in asg.items() if k != me):
-                            witness = asg
-                            break
-                        if sat and me is not None and asg.get(me) == -1:
-                            witness = asg
-                            break
                 ctx.ob("R19.5", "%s: %s--" % (q, member_text(tgt)), witness is None, site=A.where(x),
-                       detail={"enclosing_conditions": [("" if pol else "!") + "(" + A.src(c) + ")" for c, pol in conds], "counterexample": witness},
+                       detail={"enclosing_conditions": [("" if pol else "!") + "(" + A.src(c) + ")" for c, pol in conds], "call_sites": [sq for sq, _ in sites], "counterexample": witness},
                        key="R19.5:%s:%s" % (q, member_text(tgt)),
                        what="%s decrements %s under conditions that hold with %s" % (q, member_text(tgt), witness))
     ctx.require(n5 >= 4, "R19.5: only %d queue decrements found" % n5)
@@ -217,6 +182,16 @@ def run(ctx):
     emits = [c for c in A.calls_in(u.body(fn), "rtosc_message")]
     ctx.require(len(emits) == 3, "setSlotSub: expected 3 emit sites, found %d" % len(emits))
     n2 = 0
+    valp = u.params(fn)[2]
+    # the mapped input: the variable(s) computed from the slot value parameter; the bounds: the variables read from param_min/max
+    def _mentions_member(d, name):
+        return any(y.get("kind") == "MemberExpr" and y.get("name") == name for y in A.walk(d))
+    fvars = [d for d in A.walk(u.body(fn)) if d.get("kind") == "VarDecl" and A.kids(d)]
+    inputs = {d["id"] for d in fvars if valp["id"] in _refs(A.kids(d)[-1])}
+    lo_ids = {d["id"] for d in fvars if _mentions_member(d, "param_min")}
+    hi_ids = {d["id"] for d in fvars if _mentions_member(d, "param_max")}
+    ctx.require(inputs and lo_ids and hi_ids, "setSlotSub: mapped value / bounds variables not found")
+    LO, HI = 2.0, 10.0
     for c in emits:
         fmt = OF.format_literals(A.kids(c)[4])
         if fmt is None or fmt in (["T", "F"], ["F", "T"]):
@@ -230,56 +205,52 @@ def run(ctx):
                 break
         stmts = A.kids(br)
         ci = next(i for i, s_ in enumerate(stmts) if _contains(s_, c))
-        vdecl = [d for s_ in stmts[:ci] if s_.get("kind") == "DeclStmt" for d in A.kids(s_) if d.get("kind") == "VarDecl"]
-        ctx.require(len(vdecl) == 1, "setSlotSub '%s' branch: value variable not found" % tag)
-        v = vdecl[0]
-        clamps = [s_ for s_ in stmts[:ci] if s_.get("kind") == "IfStmt" and v["id"] in _refs(A.kids(s_)[0]) and
-                  any(y.get("kind") == "BinaryOperator" and y.get("opcode") == "=" and A.ref_id(A.kids(y)[0]) == v["id"] and A.strip_casts(A.kids(y)[1]).get("kind") == "DeclRefExpr" for y in A.walk(s_))]
-        mnmx = sorted({A.ref_name(A.kids(y)[1]) for cl in clamps for y in A.walk(cl) if y.get("kind") == "BinaryOperator" and y.get("opcode") == "=" and A.ref_id(A.kids(y)[0]) == v["id"]})
-        bad = []
-        if clamps:
-            ids = {}
-            for cl in clamps:
-                for y in A.walk(cl):
-                    if y.get("kind") == "DeclRefExpr" and y["referencedDecl"]["id"] != v["id"]:
-                        ids[y["referencedDecl"]["name"]] = y["referencedDecl"]["id"]
-            lo_id, hi_id = ids.get("mn"), ids.get("mx")
-            for x0 in (0.5, 2.0, 2.5, 9.75, 10.0, 11.5):
-                env = {v["id"]: x0}
-                if lo_id:
-                    env[lo_id] = 2.0
-                if hi_id:
-                    env[hi_id] = 10.0
-                ev = FD.Eval(env=env)
-                try:
-                    for cl in clamps:
-                        ev.run(cl)
-                except FD.Unknown as e:
-                    raise AnalysisBroken("R19.2: clamp not evaluable: %s" % e)
-                exp = min(max(x0, 2.0), 10.0)
-                if ev.env[v["id"]] != exp:
-                    bad.append({"in": x0, "out": ev.env[v["id"]], "expected": exp})
-        ok_clamp = bool(clamps) and not bad and lo_id is not None and hi_id is not None
-        # between last clamp and emit: only v = f(v) with monotone f
-        last = max(stmts.index(cl) for cl in clamps) if clamps else -1
-        between_ok = True
-        applied = []
-        for s_ in stmts[last + 1:ci]:
-            for y in A.walk(s_):
-                if y.get("kind") == "BinaryOperator" and y.get("opcode") == "=" and A.ref_id(A.kids(y)[0]) == v["id"]:
-                    rhs = A.strip_casts(A.kids(y)[1])
-                    if rhs.get("kind") == "CallExpr" and A.callee_name(rhs) in MONOTONE and A.ref_id(A.kids(rhs)[1]) == v["id"]:
-                        applied.append(A.callee_name(rhs))
-                    else:
-                        between_ok = False
-                elif y.get("kind") == "CompoundAssignOperator" and A.ref_id(A.kids(y)[0]) == v["id"]:
-                    between_ok = False
         arg = A.kids(c)[5] if len(A.kids(c)) > 5 else None
-        emit_ok = arg is not None and v["id"] in _refs(arg) and all(A.callee_name(y) in MONOTONE for y in A.calls_in(arg))
+        # where the evaluation starts: just after the mapped value is computed if that happens inside the branch
+        start = 0
+        inner_in = None
+        for i, s_ in enumerate(stmts[:ci]):
+            if s_.get("kind") == "DeclStmt":
+                for d in A.kids(s_):
+                    if d.get("id") in inputs:
+                        start, inner_in = i + 1, d["id"]
+        bad = []
+        foreign = []
+        for scale in (0, 1):
+            for x0 in (0.5, 2.0, 2.5, 9.75, 10.0, 11.5):
+                env = {i_: x0 for i_ in (inputs if inner_in is None else {inner_in})}
+                env.update({i_: LO for i_ in lo_ids})
+                env.update({i_: HI for i_ in hi_ids})
+
+                def hook(n, ev, scale=scale):
+                    if n.get("kind") == "MemberExpr" and n.get("name") == "control_scale":
+                        return scale
+                    return NotImplemented
+
+                def call(name, vals, n):
+                    if name in MONOTONE and len(vals) == 1:
+                        return vals[0]          # a monotone map keeps the value inside the image of [min,max]: tracked as identity
+                    fns = [f for f in u.functions.get(name, []) if u.body(f) is not None]
+                    if len(fns) == 1:
+                        return ev.call_function(u, fns[0], vals)
+                    foreign.append(name)
+                    return float("nan")
+                ev = FD.Eval(env=env, node_hook=hook, call=call)
+                try:
+                    for s_ in stmts[start:ci]:
+                        ev.run(s_)
+                    out = ev.ev(arg) if arg is not None else None
+                except FD.Unknown as e:
+                    raise AnalysisBroken("R19.2: '%s' branch not evaluable: %s" % (tag, e))
+                except (ValueError, OverflowError):
+                    out = None
+                exp = min(max(x0, LO), HI)
+                if out is None or out != out or (float(out) != exp if tag == "f" else int(out) != int(exp)):
+                    bad.append({"mapped": x0, "log_scale": scale, "emitted": None if out is None or out != out else out, "expected": exp})
         n2 += 1
-        ctx.ob("R19.2", "setSlotSub '%s'" % tag, ok_clamp and between_ok and emit_ok, site=A.where(c),
-               detail={"clamp_bounds": mnmx, "clamp_mismatches": bad, "applied_between": applied, "emits_v": emit_ok},
-               what="setSlotSub '%s': clamp %s / mismatches %s / between-ok %s / emits clamped value %s" % (tag, mnmx, bad[:2], between_ok, emit_ok))
+        ctx.ob("R19.2", "setSlotSub '%s'" % tag, arg is not None and not bad, site=A.where(c),
+               detail={"cases": 12, "mismatches": bad[:4], "non_monotone_calls": sorted(set(foreign))},
+               what="setSlotSub '%s': the emitted value is not clamp(mapped, min, max) up to a monotone library function: %s %s" % (tag, bad[:2], sorted(set(foreign))))
     ctx.require(n2 == 2, "R19.2: expected the 'i' and 'f' emit branches")
     # toggle branch: emits only T/F
     tf = [c for c in emits if OF.format_literals(A.kids(c)[4]) in (["T", "F"], ["F", "T"])]
@@ -331,6 +302,101 @@ def run(ctx):
 
 def _refs(e):
     return {x["referencedDecl"]["id"] for x in A.walk(e) if x.get("kind") == "DeclRefExpr"}
+
+
+def _terminates(st):
+    """the statement always leaves the enclosing iteration / function"""
+    k = st.get("kind")
+    if k in ("ContinueStmt", "BreakStmt", "ReturnStmt", "GotoStmt"):
+        return True
+    if k == "CompoundStmt" and A.kids(st):
+        return _terminates(A.kids(st)[-1])
+    return False
+
+
+def _guards(u, x):
+    """[(condition, polarity)] known to hold at x: enclosing if/else branches, and earlier `if(c) continue/break/return;`
+    statements of the enclosing blocks (early-exit guards) up to the function."""
+    conds = []
+    child = x
+    for p in u.ancestors(x):
+        if p.get("kind") == "IfStmt":
+            ks = A.kids(p)
+            if _contains(ks[1], child):
+                conds.append((ks[0], True))
+            elif len(ks) > 2 and _contains(ks[2], child):
+                conds.append((ks[0], False))
+        elif p.get("kind") == "CompoundStmt":
+            for st in A.kids(p):
+                if st is child or _contains(st, child):
+                    break
+                if st.get("kind") == "IfStmt" and len(A.kids(st)) == 2 and _terminates(A.kids(st)[1]):
+                    conds.append((A.kids(st)[0], False))
+        if p.get("kind") in ("CXXMethodDecl", "FunctionDecl", "ForStmt", "WhileStmt", "DoStmt") and p.get("kind") in ("CXXMethodDecl", "FunctionDecl"):
+            break
+        child = p
+    return conds
+
+
+def _queue_witness(u, sentinel, member_text, x, tgt, is_sent, conds, cconds, binds, q):
+    """an assignment of queue positions under which the guards hold although a position in them is the sentinel -1"""
+    def relevant(c):
+        # a guard that reads no queue position and no helper parameter only narrows the cases: leaving it out is conservative
+        return any(m.get("kind") == "MemberExpr" and m.get("referencedMemberDecl") in sentinel for m in A.walk(c)) or \
+            any(y.get("kind") == "DeclRefExpr" and (y["referencedDecl"]["id"] in binds or (y["referencedDecl"].get("kind") == "VarDecl" and "bool" in A.qtype(y))) for y in A.walk(c))
+    conds = [(c, pol) for c, pol in conds if relevant(c)]
+    cconds = [(c, pol) for c, pol in cconds if relevant(c)]
+    allc = conds + cconds
+    exprs = sorted({member_text(m) for c, _ in allc for m in A.walk(c) if m.get("kind") == "MemberExpr" and m.get("referencedMemberDecl") in sentinel} |
+                   {member_text(m) for a in binds.values() for m in A.walk(a) if m.get("kind") == "MemberExpr" and m.get("referencedMemberDecl") in sentinel})
+    me = member_text(tgt) if is_sent else None
+    # plain local variables in the conditions are free (both truth values are tried) unless they are
+    # assigned inside the loop that encloses the decrement: then the renumbering depends on the scan position
+    free_ids = sorted({y["referencedDecl"]["id"] for c, _ in allc for y in A.walk(c) if y.get("kind") == "DeclRefExpr" and
+                       y["referencedDecl"].get("kind") == "VarDecl" and "bool" in A.qtype(y)})
+    loop = None
+    for p2 in u.ancestors(x):
+        if p2.get("kind") in ("ForStmt", "WhileStmt", "DoStmt"):
+            loop = p2
+            break
+    carried = []
+    if loop is not None:
+        for y in A.walk(loop):
+            if y.get("kind") in ("BinaryOperator", "CompoundAssignOperator") and y.get("opcode", "").endswith("=") and y.get("opcode") not in ("==", "!=", "<=", ">=") and A.ref_id(A.kids(y)[0]) in free_ids:
+                carried.append(u.by_id[A.ref_id(A.kids(y)[0])].get("name"))
+    if carried and is_sent:
+        return {"reason": "the renumbering of other slots is conditioned on `%s`, which the same loop over the slots assigns: only slots visited after that point are renumbered" % carried[0]}
+    if not exprs:
+        return {"reason": "no enclosing condition mentions a queue position"}
+    for vals in itertools.product((-1, 1, 2, 3), repeat=len(exprs)):
+        asg = dict(zip(exprs, vals))
+
+        def hook(n, ev, asg=asg):
+            if n.get("kind") == "MemberExpr" and n.get("referencedMemberDecl") in sentinel:
+                return asg[member_text(n)]
+            return NotImplemented
+        try:
+            sat = False
+            for fv in itertools.product((0, 1), repeat=len(free_ids)):
+                env = dict(zip(free_ids, fv))
+                if not all(bool(FD.Eval(env=env, node_hook=hook).ev(c)) == pol for c, pol in cconds):
+                    continue
+                env2 = dict(env)
+                for pid, arg in binds.items():
+                    try:
+                        env2[pid] = FD.Eval(env=env, node_hook=hook).ev(arg)
+                    except FD.Unknown:
+                        pass          # an argument that is not a queue position: unbound, an error only if a guard reads it
+                if all(bool(FD.Eval(env=env2, node_hook=hook).ev(c)) == pol for c, pol in conds):
+                    sat = True
+                    break
+        except FD.Unknown as e:
+            raise AnalysisBroken("R19.5: condition not evaluable in %s: %s" % (q, e))
+        if sat and any(v == -1 for k, v in asg.items() if k != me):
+            return asg
+        if sat and me is not None and asg.get(me) == -1:
+            return asg
+    return None
 
 
 def _contains(root, node):
